@@ -376,18 +376,55 @@ theorem evm_call_program_as_modelled (h : CallHdr N) (callee : St N → Outcome 
   · rcases hc : callee (s.enter h) with ⟨o, s1, g1⟩
     cases o <;> simp [execC, stepC, hf, hc]
 
-/-- the same for all FOUR call kinds when no value is attached (`DelegateCall` / `StaticCall` cannot carry one;
-`CallCode` checks the balance but moves nothing) -/
+/-- the same for all FOUR call kinds when no value moves (`DelegateCall` / `StaticCall` cannot carry one; `CallCode` checks
+the balance but moves nothing).  Round 4: the statement now also covers CALLCODE WITH a value (`checkOnly = true`, any
+`funded`): the fork's `CallCode` has the balance check and no `Transfer`, so it is `callModel` of a header without `xfer` -/
 theorem evm_valueless_call_programs_as_modelled (k : Kind) (h : CallHdr N) (hx : h.xfer = none)
+    (hk : k = .callcode ∨ h.checkOnly = false)
     (callee : St N → Outcome × St N × Nat) (s : St N) (gas : Nat) :
     runCall (progOf k) h callee s gas = some (callModel h callee s gas) := by
-  have hf : h.unfunded s.native = false := by simp [CallHdr.unfunded, hx]
   have he : s.enter h = s := by simp [St.enter, hx]
   unfold runCall callModel
   rcases hc : callee s with ⟨o, s1, g1⟩
-  cases k <;> cases o <;>
-    simp [progOf, progCall, progCallCode, progDelegateCall, progStaticCall, execC, stepC, hf, he, hc]
-example : (hdr0 true : CallHdr Nat).xfer = none := rfl
+  rcases hk with hk | hk
+  · subst hk
+    by_cases hf : h.unfunded s.native
+    · simp [progOf, progCallCode, execC, stepC, hf]
+    · cases o <;> simp [progOf, progCallCode, execC, stepC, hf, he, hc]
+  · have hf : h.unfunded s.native = false := by simp [CallHdr.unfunded, hx, hk]
+    cases k <;> cases o <;>
+      simp [progOf, progCall, progCallCode, progDelegateCall, progStaticCall, execC, stepC, hf, he, hc]
+example : (hdr0 true : CallHdr Nat).xfer = none ∧ (hdr0 true : CallHdr Nat).checkOnly = false := ⟨rfl, rfl⟩
+
+/-- CALLCODE with a value as the fork has it now (round 4; was a journaled ghost in the driver): for ANY header — even one
+that names a transfer — `EVM.CallCode` consults the balance and then runs the callee on the StateDB AS IT IS: no `Transfer`
+statement, hence no native journal entry and nothing to give back.  Stated over the regenerated `progCallCode`: a fork
+that made CallCode move the value breaks this -/
+theorem evm_callcode_checks_balance_moves_nothing (h : CallHdr N) (callee : St N → Outcome × St N × Nat) (s : St N) (gas : Nat) :
+    runCall progCallCode h callee s gas =
+      some (if h.unfunded s.native then (.revert, s, gas) else
+            if (callee s).1 = .abort ∨ (callee s).1 = .ok then callee s
+            else ((callee s).1, (callee s).2.1.revertTo s.journal.length, if (callee s).1 = .revert then (callee s).2.2 else 0)) := by
+  unfold runCall progCallCode
+  by_cases hf : h.unfunded s.native
+  · simp [execC, stepC, hf]
+  · rcases hc : callee s with ⟨o, s1, g1⟩
+    cases o <;> simp [execC, stepC, hf, hc]
+
+/-- a CALLCODE whose value the executing account cannot cover never starts: the state is untouched and ALL the gas handed
+over (stipend included) comes back — while the same header passes a STATIC context (no write-protection test in
+`opCallCode`, the frame model's guard looks at `xfer` only) -/
+theorem unfunded_callcode_value_leaves_no_trace (fuel : Nat) (ro : Bool) (gas : Nat) (h : CallHdr N) (body rest : List (Prog N)) (s : St N)
+    (hx : h.xfer = none) (hc : h.checkOnly = true) (hg : ¬ gas < h.callc) (hfund : h.funded s.native = false) :
+    exec (fuel + 1) ro gas (.call h body :: rest) s =
+      (let g3 := keepGas h gas + (fwdGas h gas + h.stip)
+       if g3 < h.pFail then (.fail, s, 0)
+       else if h.swallow then exec fuel ro (g3 - h.pFail) rest s else (.revert, s, g3 - h.pFail)) := by
+  have hu : h.unfunded s.native = true := by simp [CallHdr.unfunded, hc, hfund]
+  exact unfunded_call_leaves_no_trace fuel ro gas h body rest s (by simp [hx, hg]) hu
+example : ({ (hdr0 true : CallHdr Nat) with checkOnly := true, funded := fun _ => false }).xfer = none ∧
+    ({ (hdr0 true : CallHdr Nat) with checkOnly := true, funded := fun _ => false }).checkOnly = true ∧
+    ({ (hdr0 true : CallHdr Nat) with checkOnly := true, funded := fun _ => false }).funded 0 = false := ⟨rfl, rfl, rfl⟩
 
 /-- `(*EVM).create` (CREATE / CREATE2: a constructor frame) as the fork has it now: the same discipline as `Call` — balance
 check before any snapshot, Snapshot, endowment Transfer, run the init code, on error RevertToSnapshot and burn the gas unless
@@ -447,6 +484,37 @@ length; journal.Revert newest-first down to the snapshot, then truncation; nativ
 Clone / Restore; `Context()` returns the very `s.ctx` native actions run on; Commit writes the native store before the
 dirty EVM storage; Transfer is a native action; AddLog is journaled; RequiredGas is charged before Run) -/
 theorem statedb_facts_as_modelled : stateDBFacts = expectedStateDBFacts := by rfl
+
+
+/-! ### round 4 — the translator's "neutral" classification is data, compared with the reviewed list -/
+
+/-- every statement of `ExecuteNativeAction`, `EVM.Call / CallCode / DelegateCall / StaticCall` and `create` that the
+dependency translator took as neutral is, character for character, one of the REVIEWED statements (`reviewedNeutral`), in
+the same order, with the same StateDB methods inside: a new statement kind, a changed tracer block, a new early return in
+either fork makes this obligation fail instead of being absorbed by a prefix match -/
+theorem dependency_neutral_statements_are_the_reviewed_ones : neutralStmts = reviewedNeutral := by rfl
+
+/-- no neutral step of the interpreted programs is missing from that list: per function, the programs `stepC` / `stepNA`
+skip over exactly as many steps as there are recorded statements -/
+theorem dependency_neutral_steps_all_recorded :
+    (∀ p ∈ depProgs, (p.2.filter cNeutral).length = (neutralOf p.1 neutralStmts).length) ∧
+    (nativeActionProg.filter naNeutral).length = (neutralOf "ExecuteNativeAction" neutralStmts).length ∧
+    (neutralStmts.all fun n => n.1 == "ExecuteNativeAction" || depProgs.any (fun p => p.1 == n.1)) = true := by
+  decide
+
+/-- the StateDB methods reachable from neutral statements are account bookkeeping only — none of Snapshot,
+RevertToSnapshot, ExecuteNativeAction, Transfer, SetState, AddLog, Context, Commit -/
+theorem dependency_neutral_statements_only_do_account_bookkeeping :
+    ∀ n ∈ neutralStmts, ∀ m ∈ n.2.2.1, m ∈ accountBookkeeping := by decide
+
+/-- a neutral statement that can RETURN from `EVM.Call*` / `create` stands before the value transfer and before the callee
+runs (nothing has changed since the snapshot, or no snapshot exists yet), in every one of the five programs; and
+`ExecuteNativeAction` has no returning neutral statement at all -/
+theorem dependency_neutral_returns_precede_every_effect :
+    (∀ p ∈ depProgs, ∀ i ∈ returningIdx (neutralOf p.1 neutralStmts), i < neutralBeforeEffect p.2) ∧
+    returningIdx (neutralOf "ExecuteNativeAction" neutralStmts) = [] := by decide
+-- non-vacuity: there ARE returning neutral statements (Call: the non-existent-account shortcut; create: nonce overflow, collision)
+example : returningIdx (neutralOf "Call" neutralStmts) = [2] ∧ returningIdx (neutralOf "create" neutralStmts) = [1, 5] := by decide
 
 /-! ### the order of the statements is what decides (each pair differs from the regenerated program in ONE swap) -/
 
